@@ -9,7 +9,7 @@ Definition hres_code (r : hres) : Z :=
 
 Definition sizes_list (v : vm) : list Z :=
   [regs v; Z.of_nat (length (stack v)); Z.of_nat (seqb v); Z.of_nat (strb v); base v;
-   Z.of_nat (placeholders v); exports v; Z.of_nat (timeouts_delivered v)].
+   Z.of_nat (length (placeholders v)); exports v; Z.of_nat (timeouts_delivered v)].
 
 (* C07: the history of host operations from a fresh instance *)
 Definition history_out (ops : list hostop) : list (Z * list Z) :=
